@@ -136,8 +136,11 @@ def expected (es : List Entry) (id : Nat) : Option (List (Nat × Bool)) :=
 def U (es : List Entry) (c : Cache) : Nat := (es.filter (fun e => !c.has e.id)).length
 def Ext (c c' : Cache) : Prop := ∀ x, c.has x = true → c'.has x = true
 def isPend (c : Cache) (x : Nat) : Bool := c.any (fun o => o.id == x && o.resolved.isNone)
+/-- every cached object is an instance of the file; it is either still being read or carries the eager resolution, and
+    in the latter case every instance it mentions (that the file has) is in the cache as well -/
 def WF (es : List Entry) (c : Cache) : Prop :=
-  ∀ o ∈ c, known es o.id = true ∧ (o.resolved = none ∨ o.resolved = expected es o.id)
+  ∀ o ∈ c, known es o.id = true ∧ (o.resolved = none ∨ o.resolved = expected es o.id) ∧
+    (o.resolved ≠ none → ∀ refs, refsOf es o.id = some refs → ∀ r ∈ refs, known es r = true → c.has r = true)
 
 theorem Ext.refl (c : Cache) : Ext c c := fun _ h => h
 theorem Ext.trans {a b c : Cache} (h1 : Ext a b) (h2 : Ext b c) : Ext a c := fun x h => h2 x (h1 x h)
@@ -222,18 +225,23 @@ def LoadSpec (es : List Entry) (f : Nat) : Prop :=
 theorem loadRefs_spec (es : List Entry) (f : Nat) (IH : LoadSpec es f) :
     ∀ (refs : List Nat) (c : Cache) (acc : List (Nat × Bool)), U es c < f → WF es c →
       ∃ c', loadRefsWith (load true es f) c refs acc = .ok (c', acc.reverse ++ refs.map (fun r => (r, known es r))) ∧
-        Ext c c' ∧ WF es c' ∧ (∀ x, isPend c' x = true → isPend c x = true) := by
+        Ext c c' ∧ WF es c' ∧ (∀ x, isPend c' x = true → isPend c x = true) ∧
+        (∀ r ∈ refs, known es r = true → c'.has r = true) := by
   intro refs
   induction refs with
-  | nil => intro c acc _ hw; exact ⟨c, by simp [loadRefsWith], Ext.refl c, hw, fun _ h => h⟩
+  | nil => intro c acc _ hw; exact ⟨c, by simp [loadRefsWith], Ext.refl c, hw, fun _ h => h, fun _ h => by cases h⟩
   | cons r t ih =>
     intro c acc hu hw
-    obtain ⟨c1, h1, e1, w1, p1, _⟩ := IH c r hu hw
+    obtain ⟨c1, h1, e1, w1, p1, k1⟩ := IH c r hu hw
     have hu1 : U es c1 < f := Nat.lt_of_le_of_lt (U_mono es e1) hu
-    obtain ⟨c2, h2, e2, w2, p2⟩ := ih c1 ((r, known es r) :: acc) hu1 w1
-    refine ⟨c2, ?_, e1.trans e2, w2, fun x h => p1 x (p2 x h)⟩
-    simp only [loadRefsWith, h1, h2]
-    simp
+    obtain ⟨c2, h2, e2, w2, p2, k2⟩ := ih c1 ((r, known es r) :: acc) hu1 w1
+    refine ⟨c2, ?_, e1.trans e2, w2, fun x h => p1 x (p2 x h), ?_⟩
+    · simp only [loadRefsWith, h1, h2]
+      simp
+    · intro q hq hk
+      rcases List.mem_cons.mp hq with h | h
+      · rw [h]; rw [h] at hk; exact e2 r (k1 hk)
+      · exact k2 q h hk
 
 theorem isPend_append (c : Cache) (o : Obj) (x : Nat) :
     isPend (c ++ [o]) x = (isPend c x || (o.id == x && o.resolved.isNone)) := by
@@ -263,13 +271,15 @@ theorem load_spec (es : List Entry) : ∀ f, LoadSpec es f := by
         have hw0 : WF es (c ++ [o]) := by
           intro o' ho'
           rcases List.mem_append.mp ho' with h | h
-          · exact hw o' h
+          · refine ⟨(hw o' h).1, (hw o' h).2.1, fun hne refs hr' r hr hkr => ?_⟩
+            have := (hw o' h).2.2 hne refs hr' r hr hkr
+            simp [has_append, this]
           · have : o' = o := by simpa using h
-            subst this; exact ⟨hk, Or.inl rfl⟩
+            subst this; exact ⟨hk, Or.inl rfl, fun hne => absurd rfl hne⟩
         have hu0 : U es (c ++ [o]) < f := by
           have := U_lt es c o (refsOf_some_mem hr) hc'
           omega
-        obtain ⟨c1, h1, e1, w1, p1⟩ := loadRefs_spec es f ih refs (c ++ [o]) [] hu0 hw0
+        obtain ⟨c1, h1, e1, w1, p1, kr⟩ := loadRefs_spec es f ih refs (c ++ [o]) [] hu0 hw0
         simp only [List.reverse_nil, List.nil_append] at h1
         rw [h1]
         simp only
@@ -285,9 +295,15 @@ theorem load_spec (es : List Entry) : ∀ f, LoadSpec es f := by
           by_cases hid : o1.id == id
           · have hid' : o1.id = id := by simpa using hid
             simp only [hid, ↓reduceIte]
-            exact ⟨by rw [hid']; exact hk, Or.inr (by rw [hid', hex])⟩
+            refine ⟨by rw [hid']; exact hk, Or.inr (by rw [hid', hex]), fun _ refs' hr' r hrm hkr => ?_⟩
+            rw [has_set]
+            rw [hid', hr] at hr'
+            cases hr'
+            exact kr r hrm hkr
           · simp only [hid, Bool.false_eq_true, ↓reduceIte]
-            exact w1 o1 ho1
+            refine ⟨(w1 o1 ho1).1, (w1 o1 ho1).2.1, fun hne refs' hr' r hr hkr => ?_⟩
+            rw [has_set]
+            exact (w1 o1 ho1).2.2 hne refs' hr' r hr hkr
         · intro x hx
           unfold isPend Cache.set at hx
           rw [List.any_eq_true] at hx
